@@ -25,7 +25,8 @@ Vals == {V(n, t, s) : n \in {"", "a", "B"}, t \in {"T1", "T2"}, s \in {"", "s", 
 \* The tag separates its parts by commas: a name or subtype containing one cannot be represented and must be refused.
 BadName(n) == n = "xcomman"
 BadSub(s) == s = "xcomma"
-OddVals == {V(n, t, s) : n \in {"", "a", "xdotless", "xdigit", "xunder", "xcomman"}, t \in {"T1"}, s \in {"", "s", "xcomma", "xquote", "xback"}}
+\*   blanks    xblankn = "a " (a name with a trailing blank), xblanks = " s" (a subtype with a leading blank): kept as they are
+OddVals == {V(n, t, s) : n \in {"", "a", "xdotless", "xdigit", "xunder", "xcomman", "xblankn"}, t \in {"T1"}, s \in {"", "s", "xcomma", "xquote", "xback", "xblanks"}}
 Lower(n) == IF n = "B" THEN "b" ELSE n
 NoDupNames(q) == \A i, j \in DOMAIN q : (i # j /\ q[i].name # "" /\ q[j].name # "") => Lower(q[i].name) # Lower(q[j].name)
 Lists == UNION {[1..k -> Vals] : k \in 0..3} \cup UNION {[1..k -> OddVals \cup {V("B", "T2", "")}] : k \in 1..2}
